@@ -335,7 +335,7 @@ impl<'a> G<'a> {
                 if self.r.chance(6) {
                     // whole-string values that look like reserved words / syntax of the format
                     Value::String((*self.r.pick(&[
-                        "...", "_sd", "_sd_alg", "sha-256", "cnf", "jwk", "kb+jwt", "sd_hash", "null", "true", "false", "0", "[]", "{}", "~", ".", "$", "$.a",
+                        "...", "_sd", "_sd_alg", "sha-256", "cnf", "jwk", "kb+jwt", "sd_hash", "null", "true", "false", "0", "[]", "{}", "~", ".", "$", "$.a", "iss", "exp", "nbf", "iat", "aud", "sub",
                         "\"", "\\", "\\u0000", "e30", "W10", "eyJhbGciOiJub25lIn0", "a~b", "a.b.c", "=",
                         // JSON text that, if parsed, would contain reserved member names
                         "19\" rack, part 2e4", "27\" 7f3e8a21", "1e5\"2e4\"3E-2", "EC", "OKP",
@@ -518,6 +518,10 @@ impl<'a> G<'a> {
             self.budget -= 4;
             return Value::Array(out);
         }
+        if self.r.chance(2) {
+            // elements that only LOOK like array placeholders: one member whose name merely starts with "..."
+            out.push(self.r.pick(&[json!({"...continued": "see appendix B"}), json!({"....": 1}), json!({"... ": "x"}), json!({"..": "y"})]).clone());
+        }
         for _ in 0..n {
             let v = match self.cfg.profile {
                 Profile::ArraysOfArrays if depth > 0 && self.budget > 0 && self.r.chance(60) => {
@@ -556,7 +560,12 @@ pub fn gen_claims(r: &mut Rng, cfg: &GenCfg) -> Value {
     }
     if g.r.chance(50) {
         // iat is an ordinary always-visible claim: past, present, post-dated, epoch, fractional
-        let iat = match g.r.below(10) {
+        let iat = match g.r.below(11) {
+            // a structured iat (the properties leave its type open): still always visible, as a whole
+            10 => {
+                let (t1, t2) = (g.tag(), g.tag());
+                if g.r.chance(50) { json!({format!("source{t1}"): "ntp", "t": cfg.now, "hist": [{format!("k{t2}"): 1}, 2]}) } else { json!([cfg.now, {format!("k{t1}"): {format!("z{t2}"): null}}, []]) }
+            }
             0 => json!(cfg.now + 120 + g.r.below(600)),
             1 => json!(cfg.now + 7 * 86_400),
             2 => json!(0),
@@ -582,6 +591,17 @@ pub fn gen_claims(r: &mut Rng, cfg: &GenCfg) -> Value {
             _ => g.value(2),
         };
         entries.push((nm.to_string(), v));
+    }
+    if cfg.profile == Profile::Boundary && g.r.chance(4) {
+        // 16 / 17 / 33 array-valued claims side by side at one level
+        for _ in 0..*g.r.pick(&[16u64, 17, 33]) {
+            let t = g.tag();
+            entries.push((format!("list{t}"), json!(["x", "y"])));
+        }
+    }
+    if g.r.chance(4) {
+        // OpenID-style event times that lie in the FUTURE (or are given in milliseconds): ordinary claims
+        entries.push(((*g.r.pick(&["auth_time", "updated_at"])).to_string(), g.r.pick(&[json!(cfg.now + 1800), json!(cfg.now * 1000), json!(cfg.now + 86_400 * 400)]).clone()));
     }
     if g.r.chance(30) {
         let s = g.string(false);
@@ -664,8 +684,10 @@ pub fn all_paths(v: &Value) -> Vec<Path> {
     out
 }
 
+/// Top-level iss / iat / exp — and everything below them when they are structured — are copied into
+/// the payload as they are: never selectively disclosable, no digest lists, no decoys.
 pub fn always_visible(p: &Path) -> bool {
-    p.len() == 1 && matches!(&p[0], Step::K(k) if k == "iss" || k == "iat" || k == "exp")
+    !p.is_empty() && matches!(&p[0], Step::K(k) if k == "iss" || k == "iat" || k == "exp")
 }
 
 /// JSONPath-like rendering as the issuer's Custom strategy expects; each array step is
